@@ -99,6 +99,11 @@ def run(ctx, rep):
     rep.rule("R19.6", "what goes by value is decided by exact type alone and encoded by exact type alone (= R04.1, R04.2)")
     rep.assume("the reference table sa/ref/wire_5x.json is the published 5.x format (cross-validated against the documented "
                "hex example by sa/ref/refcodec.py at setup time)", "zlib and struct produce what their documentation says")
+    # the frame reader/writer behaves the same in every interpreter mode (= R05.10)
+    K.share(ctx, rep, "c05", lambda o: o.rule == "R05.10", "R19.3", floor=1)
+    # a frame is written as one uninterrupted unit: the send lock is a plain lock (a finalizer running on the sending thread
+    # queues its message instead of writing it into the middle of the frame in progress) (= R12.5, R12.7)
+    K.share(ctx, rep, "c12", lambda o: o.rule in ("R12.5", "R12.7"), "R19.3", floor=2)
     ref = load_ref()
     b = ref["brine"]
     m = c04.Model(ctx)
